@@ -112,10 +112,10 @@ func runC01(run *ev.Run, tier string) string {
 	eng.QuerySweep(cfg, run)
 	n := run.Get("evaluations")
 	results := run.DistinctCount("results")
-	runSS(run, tier, []string{"values"}, []string{drv.BBolt, drv.Badger}, "", own("find", "state", "apply"), nil)
+	runSS(run, tier, []string{"values", "nested"}, []string{drv.BBolt, drv.Badger}, "", own("find", "state", "apply"), nil)
 	run.Set("query_sweep_evaluations", n)
 	run.Set("transitions", run.Get("transitions")+n)
 	run.Set("traces_validated_against_impl", run.Get("transitions")+n)
 	run.Set("distinct_nontrivial", int64(results)+run.Get("states"))
-	return "(a) every criteria tree of the alphabet (26 leaves incl. mixed-type operands, nil, field references, In/Contains/Like/Exists/MatchFunc; all negations and And/Or pairs; thorough: 240 more leaves and depth 2) x 5 sort shapes on 6 index twins, FindAll compared with the reference model (exactly the satisfying live documents, once, with the values last written, in the required order); (b) breadth-first search to a fixpoint over a write alphabet on collections a/ab with values nil, int, float, string, array, object (insert, update by id in both updater styles, replace, save, bulk update, deletes, index create/drop, collection drop): in every reachable state 36 probe queries are compared with the model; distinct = distinct result signatures + distinct raw states"
+	return "(a) every criteria tree of the alphabet (26 leaves incl. mixed-type operands, nil, field references, In/Contains/Like/Exists/MatchFunc; all negations and And/Or pairs; thorough: 240 more leaves and depth 2) x 5 sort shapes on 6 index twins, FindAll compared with the reference model (exactly the satisfying live documents, once, with the values last written, in the required order); (b) breadth-first search to a fixpoint over a write alphabet on collections a/ab with values nil, int, float, string, array, object (insert, update by id in both updater styles, replace, save, bulk update, deletes, index create/drop, collection drop): in every reachable state 36 probe queries are compared with the model; the same for the 'nested' alphabet (objects nested in documents, indexes on n.a and n, rewrites through the dotted path and of the whole object, 16 probes); distinct = distinct result signatures + distinct raw states"
 }
